@@ -196,6 +196,21 @@ func (eng *Engine) discharge(frs []*FuncResult, sv *Solvers, only func(name stri
 				j.or.Model = r.Model
 			default:
 				j.or.Status = "unknown"
+				// diagnostic: a model of the query without the quantified background facts is a candidate
+				// counterexample (it may violate a dropped fact); the verdict stays "unknown"
+				if strings.Contains(j.or.Query, "(assert (forall") {
+					var keep []string
+					for _, ln := range strings.Split(j.or.Query, "\n") {
+						if !strings.HasPrefix(ln, "(assert (forall") {
+							keep = append(keep, ln)
+						}
+					}
+					quick := &Solvers{Timeout: 5 * time.Second, Parallel: 1}
+					if rr := quick.Run(strings.Join(keep, "\n"), false); rr.Verdict == "sat" {
+						j.or.Model = rr.Model
+						j.or.Output += "\ncandidate counterexample found after dropping quantified background facts"
+					}
+				}
 			}
 		}(j)
 	}
